@@ -384,6 +384,17 @@ func (eapAkaPrime *EapAkaPrime) Unmarshal(rawData []byte) error {
 				}
 				return errors.Wrapf(err, "EAP-AKA' Unmarshal(): read %s attribute/value failed", attr.attrType)
 			}
+		default:
+			// Attribute this implementation does not handle: skip it according to its length
+			if attr.length < 1 {
+				return errors.Errorf("EAP-AKA' Unmarshal(): attribute[%d] length must be at least 1", attrType)
+			}
+			skipped := make([]byte, 4*int(attr.length)-EapAkaAttrTypeLen-EapAkaAttrLengthLen)
+			_, err = io.ReadFull(bufReader, skipped)
+			if err != nil {
+				return errors.Wrapf(err, "EAP-AKA' Unmarshal(): skip attribute[%d] failed", attrType)
+			}
+			continue
 		}
 
 		// Set attribute
